@@ -305,6 +305,12 @@ def tset_cases(rng, tier):
                             colsv2 = [list(c) for c in colsv]
                             colsv2[1] = [["i", 1]] * (L + 1)
                             cs.append(dict(base, value=["cols", colsv2]))
+    # the table got its column names through LIVE COLUMN VIEWS (t.cols()[j].name = ...) after its name lookups had been
+    # used: a name-addressed write goes to the column that carries the name NOW (a swap a <-> c, a fresh name)
+    named = [c for c in cs if c["op"] == "tset" and c["colspec"][0] in ("name", "names") and len(c["cols"]) == 4
+             and len(c["cols"][0]["vals"]) > 0]
+    for c in rng.sample(named, min(len(named), 120 if tier == "quick" else 1200)):
+        cs.append(dict(c, via_rename=rng.choice([[[0, "c"], [2, "a"]], [[0, "old"]], [[2, "a_"], [0, "c_"]], [[2, "zz"]]])))
     # the row key is a LIVE COLUMN of the table being assigned to (t[t.flag, :] = 0; t[t.idx, 'x'] = [..]): the
     # addressed cells are the ones the key names when the assignment starts, whichever column is written first
     for n in (3, 4):
@@ -495,6 +501,18 @@ def observe(case):
                     "conv": conv, "kept": keep is not None}
         if op == "tset":
             t = Table([Vector([V.dec(x) for x in c["vals"]], name=c["name"]) for c in case["cols"]])
+            if case.get("via_rename"):
+                olds = dict((j, o) for j, o in case["via_rename"])
+                t = Table([Vector([V.dec(x) for x in c["vals"]], name=olds.get(q, c["name"])) for q, c in enumerate(case["cols"])])
+                for probe in (lambda: t.column_names(), lambda: dir(t), lambda: [t[nm] for nm in t.column_names()],
+                              lambda: [getattr(t, nm) for nm in ("a", "b", "c", "d", "old", "zz") if hasattr(t, nm)],
+                              lambda: repr(t)):
+                    try:
+                        probe()
+                    except Exception:                        # noqa: BLE001
+                        pass
+                for j, _ in case["via_rename"]:
+                    t.cols()[j].name = case["cols"][j]["name"]
             rows = _mk_key(case["rowkey"])
             if case.get("selfkey") is not None:
                 rows = t._underlying[case["selfkey"]]        # the live column object (what t.m / t.k returns)
